@@ -32,6 +32,24 @@ pub fn run(r: &mut Report) {
             Err(e) => r.case("predicate-recognised", json!({"type": ty, "doc": doc}), "parses", format!("Err({})", e), false),
         }
     }
+    // building a naive statement carries name, artifacts, command, byproducts and environment over unchanged
+    {
+        use in_toto::models::{LinkMetadataBuilder, byproducts::ByProducts, step::Command};
+        use std::collections::BTreeMap;
+        let mut vars = BTreeMap::new();
+        vars.insert("CC".to_string(), "clang".to_string());
+        for (id, env) in [("env-none", None), ("env-empty", Some(BTreeMap::new())), ("env-populated", Some(vars))] {
+            let meta = LinkMetadataBuilder::new().name("build".to_string()).env(env.clone())
+                .materials(crate::fixture::artifacts(&[("m", 1)])).products(crate::fixture::artifacts(&[("p", 2)]))
+                .byproducts(ByProducts::new().set_return_value(0).set_stdout("out".into())).command(Command::from("make all")).build().unwrap();
+            let link_json = serde_json::to_value(&meta).unwrap();
+            let st = no_panic(|| StatementWrapper::from_meta(meta.clone(), None, StatementVer::Naive));
+            let got: Option<Value> = st.ok().and_then(|s| s.into_trait().to_bytes().ok()).and_then(|b| serde_json::from_slice(&b).ok());
+            let ok = match &got { Some(g) => g["name"] == link_json["name"] && g["materials"] == link_json["materials"] && g["products"] == link_json["products"]
+                && g["command"] == link_json["command"] && g["byproducts"] == link_json["byproducts"] && g["env"] == link_json["environment"], None => false };
+            r.case(&format!("naive-statement-carries-link-{}", id), json!({"env": env}), "all link fields unchanged", format!("{:?}", got.map(|g| g["env"].clone())), ok);
+        }
+    }
     // a v0.1 statement whose declared predicateType does not name the predicate it contains must be rejected
     for (declared, _) in preds.iter() {
         for (actual, doc) in preds.iter() {
